@@ -167,8 +167,9 @@ func (h *harness) pnumStream() {
 
 func (h *harness) opSeg(b []byte, how string) {
 	blocks := len(b) / 512
-	lr := newLimit(b, 2*blocks+16)
+	lr := newLimit(b, 4*blocks+16)
 	var nseg int
+	bad := ""
 	out := guard(func() string {
 		segs, err := tarfs.FindSegmentsForVerif(lr)
 		if err != nil {
@@ -180,8 +181,13 @@ func (h *harness) opSeg(b []byte, how string) {
 		nseg = len(segs)
 		var sb strings.Builder
 		fmt.Fprintf(&sb, "ok reads=%d n=%d", lr.reads, len(segs))
+		prevEnd := int64(0)
 		for _, s := range segs {
 			fmt.Fprintf(&sb, " %d:%d", s.Start, s.Size)
+			if s.Start < prevEnd || s.Size < 512 || s.Start%512 != 0 || s.Start+s.Size >= int64(len(b))+512 {
+				bad = fmt.Sprintf("segment %d:%d (previous end %d, archive %d bytes)", s.Start, s.Size, prevEnd, len(b))
+			}
+			prevEnd = s.Start + s.Size
 		}
 		return sb.String()
 	})
@@ -191,7 +197,9 @@ func (h *harness) opSeg(b []byte, how string) {
 		h.r.Fail("", "findSegments-panic tar="+hx.Hex(b))
 	case out == "hang":
 		h.r.Fail("", fmt.Sprintf("findSegments-does-not-terminate (more than %d block reads of a %d-block archive) tar=%s", lr.limit, blocks, hx.Hex(b)))
-	case lr.reads > blocks+2:
+	case bad != "":
+		h.r.Fail("", "findSegments-segment-outside-archive-or-overlapping "+bad+" tar="+hx.Hex(b))
+	case lr.reads > 2*blocks+2:
 		h.r.Fail("", fmt.Sprintf("findSegments-reads-not-linear reads=%d blocks=%d tar=%s", lr.reads, blocks, hx.Hex(b)))
 	case nseg > blocks:
 		h.r.Fail("", fmt.Sprintf("findSegments-more-segments-than-blocks n=%d blocks=%d tar=%s", nseg, blocks, hx.Hex(b)))
